@@ -40,7 +40,7 @@ m = {
     "setup_cmd": f"cd /verif && {ENV} go build -o bin/govc ./cmd/govc",
     "hooks": {
         "guard": "verif",
-        "enable": "go build -tags verif: contracts, spec functions and lemmas live in zz_*_verif.go files and in internal/vspec, all behind //go:build verif; the verifier loads /repo with -tags=verif",
+        "enable": "build tag `verif` (//go:build verif). Contracts, specification functions and lemmas live in zz_*_verif.go files next to the code and in internal/vspec. The checks load /repo with -tags=verif through go/packages with an overlay that adds (a) the assumed dependency contracts of /verif/specs/*.go to package internal/vspec and (b) the Go functions generated from the //@ clauses; the tagged files are therefore meant for the verifier's loader and do not compile with a plain `go build -tags verif` without that overlay. With the tag off (the default) none of these files is part of the build",
         "baseline_off_cmd": f"cd /repo && {ENV} go test -vet=off -count=1 ./...",
         "source_commits": [l.split()[0] for l in os.popen("git -C /repo log --oneline").read().splitlines() if "verif hooks" in l],
         "add_only": True,
